@@ -142,7 +142,8 @@ func (m *machine) buildOperand(ins instr) *operand {
 		// a fresh *big.Int every time: the evaluator is known to normalise the caller's value in place
 		// (DESIGN §10; that is C09's property), the model must not be corrupted by it.
 		tB := new(big.Int).SetUint64(t)
-		x := []*big.Int{big.NewInt(0), big.NewInt(1), big.NewInt(-1), new(big.Int).Sub(tB, big.NewInt(1)), tB, new(big.Int).Lsh(big.NewInt(1), 70)}[ins.arg]
+		x := []*big.Int{big.NewInt(0), big.NewInt(1), big.NewInt(-1), new(big.Int).Sub(tB, big.NewInt(1)), tB, new(big.Int).Lsh(big.NewInt(1), 70),
+			new(big.Int).SetUint64((t + 3) / 2), new(big.Int).Neg(new(big.Int).SetUint64((t - 1) / 2))}[ins.arg]
 		return scalar(new(big.Int).Set(x), x)
 	case kU64:
 		v := u64Value(ins.arg, t)
@@ -151,7 +152,7 @@ func (m *machine) buildOperand(ins instr) *operand {
 		v := i64Value(ins.arg, t)
 		return scalar(v, big.NewInt(v))
 	case kInt:
-		v := intValue(ins.arg)
+		v := intValue(ins.arg, t)
 		return scalar(v, big.NewInt(int64(v)))
 	case kVecU:
 		var v []uint64
